@@ -91,16 +91,28 @@ def r2(run, db):
         run.check(ce is not None and all_paths_from_edge_pass(f, ce, [cast[0].site], to_sites=f.exits() + [rc[0].site]), "v1|converted-is-cast", "every converted message is cast to the subscriber", "a converted message can be dropped", f.where())
         ne = nested_variant_edge(f, conv[0], ["None"])
         run.check(ne is not None and rc[0].site in edge_path_sites(f, [ne]), "v1|none-skips", "a message the converter maps to None is skipped and the loop continues", None, f.where())
-        ie = [c for c in f.calls() if c.matches(r"Result::<T, E>::is_err$") and any(r["k"] == "call" and r["call"].bb == cast[0].bb for r in f.origins(c.args[0]))]
-        good = any(true_edge(f, c) and rc[0].site not in edge_path_sites(f, [true_edge(f, c)]) for c in ie)
+        # the edges on which the cast is known to have failed / succeeded: `cast(..).is_err()` true, `.is_ok()` false, or the
+        # Err / Ok arm of a match on its result -- also when the answer is recorded in a flag first
+        fail_edges, ok_edges = [], []
+        for c in f.calls():
+            if c.matches(r"Result::<T, E>::(is_err|is_ok)$") and any(r["k"] == "call" and r["call"].bb == cast[0].bb for r in f.origins(c.args[0])):
+                te_, fe_ = implied_edges(f, c)
+                if c.matches(r"is_err$"):
+                    fail_edges.append(te_); ok_edges.append(fe_)
+                else:
+                    fail_edges.append(fe_); ok_edges.append(te_)
+        fail_edges.append(nested_variant_edge(f, cast[0], ["Err"])); ok_edges.append(nested_variant_edge(f, cast[0], ["Ok"]))
+        fail_edges = [e_ for e_ in fail_edges if e_]
+        ok_edges = [e_ for e_ in ok_edges if e_]
+        good = any(rc[0].site not in edge_path_sites(f, [e_]) for e_ in fail_edges)
         run.check(good, "v1|dead-subscriber-ends-task", "a failed cast ends the forwarding task (the subscription becomes prunable)", "a failed cast does not end the forwarder", f.where())
-        good2 = any(false_edge(f, c) and rc[0].site in edge_path_sites(f, [false_edge(f, c)]) for c in ie)
+        good2 = any(rc[0].site in edge_path_sites(f, [e_]) for e_ in ok_edges)
         run.check(good2, "v1|ok-continues", "a successful cast continues the loop", None, f.where())
         # exits of the loop: only the failed cast, Ok(None), Err(Closed)
         lag = nested_variant_edge(f, poll, ["Ready", "Err", "Lagged"])
         clo = nested_variant_edge(f, poll, ["Ready", "Err", "Closed"])
         non = nested_variant_edge(f, poll, ["Ready", "Ok", "None"])
-        run.check(lag is not None and rc[0].site in edge_path_sites(f, [lag]) and not (set(f.exits()) & (f.reach(Site(lag[1], 0), no_sites=[rc[0].site]))), "v1|lagged-continues", "Lagged re-enters the loop (later messages still arrive in order)", "Lagged ends the subscription", f.where())
+        run.check(lag is not None and rc[0].site in edge_path_sites(f, [lag]) and not any(Site(bb_, f.nstmts(bb_)) in set(f.exits()) for bb_ in f.feasible_blocks_from(lag[1], stop_blocks=[rc[0].site.bb])), "v1|lagged-continues", "Lagged re-enters the loop (later messages still arrive in order)", "Lagged ends the subscription", f.where())
         run.check(clo is not None and rc[0].site not in edge_path_sites(f, [clo]), "v1|closed-ends", "Closed ends the task", None, f.where())
         run.check(non is not None and rc[0].site not in edge_path_sites(f, [non]), "v1|none-ends", "the None sentinel ends the task", None, f.where())
         # the subscriber's status is not consulted (delivery is decided by the mailbox, C02)
